@@ -591,7 +591,9 @@ def mon_c06(w, F, vd):
                 in_ctx.add(x.i)
             cbs = [x for x in evs if x.k == "cb" and x.d["name"] == "onPublish"]
             wr = [fr for x in evs if x.k == "write" for fr in x.d["frames"]]
-            wr_k = [(fr[0], fr[1].get("id") if isinstance(fr[1], dict) else None) for fr in wr]
+            # what the application writes from inside onPublish (chained publish/subscribe/disconnect) is not an answer
+            wr_k = [(fr[0], fr[1].get("id") if isinstance(fr[1], dict) else None) for fr in wr
+                    if fr[0] in ("PUBACK", "PUBREC", "PUBCOMP", "MALFORMED")]
             has_h = bool(handlers.get(e.c, 0) & 2)
             if d[0] == "PUBLISH":
                 _, qos, pid, dup, retain, topic, payload = d
